@@ -1,0 +1,81 @@
+//go:build verif
+
+package meta
+
+// Verification hooks (build tag "verif" only): read-only access to the cached
+// per-search state and a setter for the backtracker's visited generation. They
+// add nothing to a normal build.
+
+// VerifStateSnapshot describes the engine's cached SearchState.
+type VerifStateSnapshot struct {
+	HasBacktracker        bool
+	BacktrackerGeneration uint16
+	VisitedLen            int
+	HasDFACache           bool
+	DFACacheBytes         int
+	DFACacheStates        int
+	DFACacheClears        int
+	HasRevDFACache        bool
+	RevDFACacheBytes      int
+	RevDFACacheStates     int
+	HasStratFwdCache      bool
+	StratFwdCacheBytes    int
+	StratFwdCacheStates   int
+	HasStratRevCache      bool
+	StratRevCacheBytes    int
+	StratRevCacheStates   int
+	MaxVisitedSize        int
+}
+
+// VerifSnapshot reports sizes of the cached search state (the state a
+// single-goroutine caller gets on its next search).
+func (e *Engine) VerifSnapshot() VerifStateSnapshot {
+	st := e.getSearchState()
+	defer e.putSearchState(st)
+	var s VerifStateSnapshot
+	if st.backtracker != nil {
+		s.HasBacktracker = true
+		s.BacktrackerGeneration = st.backtracker.Generation
+		s.VisitedLen = len(st.backtracker.Visited)
+	}
+	if e.boundedBacktracker != nil {
+		s.MaxVisitedSize = e.boundedBacktracker.MaxVisitedSize()
+	}
+	if st.dfaCache != nil {
+		s.HasDFACache = true
+		s.DFACacheBytes = st.dfaCache.MemoryUsage()
+		s.DFACacheStates = st.dfaCache.Size()
+		s.DFACacheClears = st.dfaCache.ClearCount()
+	}
+	if st.revDFACache != nil {
+		s.HasRevDFACache = true
+		s.RevDFACacheBytes = st.revDFACache.MemoryUsage()
+		s.RevDFACacheStates = st.revDFACache.Size()
+	}
+	if st.stratFwdCache != nil {
+		s.HasStratFwdCache = true
+		s.StratFwdCacheBytes = st.stratFwdCache.MemoryUsage()
+		s.StratFwdCacheStates = st.stratFwdCache.Size()
+	}
+	if st.stratRevCache != nil {
+		s.HasStratRevCache = true
+		s.StratRevCacheBytes = st.stratRevCache.MemoryUsage()
+		s.StratRevCacheStates = st.stratRevCache.Size()
+	}
+	return s
+}
+
+// VerifSetBacktrackerGeneration sets the visited-table generation of the cached
+// search state (to bring the 16-bit epoch close to its wrap-around).
+func (e *Engine) VerifSetBacktrackerGeneration(g uint16) bool {
+	st := e.getSearchState()
+	defer e.putSearchState(st)
+	if st.backtracker == nil {
+		return false
+	}
+	st.backtracker.Generation = g
+	return true
+}
+
+// VerifConfig returns the engine's configuration.
+func (e *Engine) VerifConfig() Config { return e.config }
